@@ -1,5 +1,6 @@
 import MesaModel.Proofs.StepCounter
 import MesaModel.Proofs.StepMro
+import MesaModel.Proofs.StepNested
 /-!
 # C05 — every `step()` call advances `model.steps` by exactly one, before user code
 
@@ -17,6 +18,9 @@ instance of class `c` runs through the hierarchy `T.hier lvls c` = the classes o
 theorems of the first part are about *every* hierarchy, hence about every instance of every class of every table; the
 last part says what the MRO is and what that means for the bodies (`TInv T`: `T` is a table of linearisations — true
 for every table reachable by class definitions, `C05_class_tables_are_linearisations`).
+
+Nested calls (`Model/StepNested.lean`): a step body may step *another* model instance; `stepNested` / `runNested`
+return the calls in the order they start, and the theorems say they are ordinary calls.
 -/
 namespace Mesa.Steps
 
@@ -202,6 +206,55 @@ theorem C05_each_class_body_once_in_mro_order (T : Table) (hT : TInv T) (lvls : 
     · simp only [hi, Table.hier, Nat.sub_zero, List.getElem?_map, hdk, Option.map_some, Option.some.injEq] at hL1
       rw [hL1]; exact hL2
 
+/-! ## nested step calls across model instances -/
+
+/-- **A `step()` made from inside another model's step body is an ordinary `step()`.**  Whatever the linking of
+    instances (each body of `i` steps the instance `i` is linked to, links pointing to later instances only), one
+    call `model_i.step(*args)` — with everything it sets off — leaves all instances exactly as the same calls made one
+    after the other at top level would; every call, nested or not, records what a top-level call records at that
+    moment — in particular each of its bodies sees its *own* instance's counter already advanced by one; and the
+    counter of every instance ends advanced by exactly the number of calls made on it, nested ones included.
+    (No instance-external state: a guard or counter shared between models breaks the second clause.) -/
+theorem C05_nested_calls_are_ordinary_calls (links : List (Option Nat)) (f : Nat) (w : List Inst) (i : Nat)
+    (args : List Int) :
+    let r := stepNested links f w i args
+    r.1 = run w (r.2.map Call.toOp) ∧
+    (∀ pre c post, r.2 = pre ++ c :: post →
+      ∃ x, (run w (pre.map Call.toOp))[c.inst]? = some x ∧ (callStep x c.args).2 = (c.entries, c.ok) ∧
+        ∀ e ∈ c.entries, e.steps = x.steps + 1) ∧
+    (∀ j x, w[j]? = some x → r.1[j]?.map (·.steps) = some (x.steps + (r.2.filter (fun c => c.inst == j)).length)) := by
+  intro r
+  obtain ⟨h1, h2⟩ := stepNested_flat links f w i args
+  refine ⟨h1, fun pre c post hc => ?_, fun j x hx => ?_⟩
+  · obtain ⟨x, hx1, hx2⟩ := h2 pre c post hc
+    refine ⟨x, hx1, hx2, fun e he => ?_⟩
+    have : c.entries = (callStep x c.args).2.1 := by rw [hx2]
+    rw [this] at he
+    exact C05_increment_before_user_code x c.args e he
+  · show (stepNested links f w i args).1[j]?.map (·.steps) = _
+    rw [h1]
+    have hcount := C05_all_interleavings_count ((stepNested links f w i args).2.map Call.toOp)
+      (fun op hop => by obtain ⟨c, _, rfl⟩ := List.mem_map.mp hop; rfl) w j x hx
+    rw [hcount]
+    congr 2
+    rw [List.filter_map, List.length_map]
+    rfl
+
+/-- …and so is a `run_model()` whose steps set off nested calls. -/
+theorem C05_nested_run_is_ordinary_calls (links : List (Option Nat)) (f : Nat) (w w' : List Inst) (i : Nat)
+    (cs : List Call) (h : runNested links f w i = some (w', cs)) :
+    w' = run w (cs.map Call.toOp) ∧
+    ∀ j x, w[j]? = some x → w'[j]?.map (·.steps) = some (x.steps + (cs.filter (fun c => c.inst == j)).length) := by
+  obtain ⟨h1, _⟩ := runNested_flat links f w i w' cs h
+  refine ⟨h1, fun j x hx => ?_⟩
+  rw [h1]
+  have hcount := C05_all_interleavings_count (cs.map Call.toOp)
+    (fun op hop => by obtain ⟨c, _, rfl⟩ := List.mem_map.mp hop; rfl) w j x hx
+  rw [hcount]
+  congr 2
+  rw [List.filter_map, List.length_map]
+  rfl
+
 /-! ### non-vacuity -/
 
 /-- depth-4 chain: level 0 inherits, level 1 overrides and calls super with arguments, level 2 inherits,
@@ -224,6 +277,17 @@ example :
     let a : Inst := Inst.new [⟨true, false, false⟩] 9
     let b : Inst := Inst.new [] 9
     (run [a, b] [.step 0 [], .step 1 [], .step 0 [], .halt 1, .step 0 []]).map (·.steps) = [3, 1] := by decide
+
+/-- a driver whose two bodies each step a sub-model, which itself steps a third: one `driver.step()` makes 1 + 2 + 2
+    calls; the sub-model's bodies see its own counter (4, then 5), not the driver's -/
+example :
+    let d : Inst := { Inst.new [⟨true, true, false⟩, ⟨true, false, false⟩] 99 with steps := 10 }
+    let s : Inst := { Inst.new [⟨true, false, false⟩] 99 with steps := 3 }
+    let t : Inst := Inst.new [] 99
+    let r := stepNested [some 1, some 2, none] 4 [d, s, t] 0 []
+    r.1.map (·.steps) = [11, 5, 2] ∧
+    r.2.map (fun c => (c.inst, c.entries.map (·.steps))) = [(0, [11, 11]), (1, [4]), (2, []), (1, [5]), (2, [])] := by
+  decide
 
 /-- the diamond `A(Model)`, `B(A)`, `C(A)`, `D(B, C)`, every class overriding `step` and calling `super().step()`:
     the MRO of `D` is D, B, C, A, Model — `B`'s `super()` leads to `C`, not to `A` — and one `step()` runs the four
